@@ -151,6 +151,7 @@ pub struct World {
     pub roots: RefCell<Vec<LoggedRc>>,
     pub wroots: RefCell<Vec<LoggedWeak>>,
     pub raws: RefCell<Vec<*const Node>>,
+    pub wraws: RefCell<Vec<*const Node>>,
     pub loose: RefCell<Vec<Box<Node>>>,
     pub quarantine: RefCell<Vec<ManuallyDrop<Rc<Node>>>>,
     pub model: RefCell<Model>,
@@ -184,6 +185,7 @@ pub fn install_world(cfg: Cfg) {
             roots: RefCell::new(Vec::with_capacity(64)),
             wroots: RefCell::new(Vec::with_capacity(64)),
             raws: RefCell::new(vec![]),
+            wraws: RefCell::new(vec![]),
             loose: RefCell::new(vec![]),
             quarantine: RefCell::new(vec![]),
             model: RefCell::new(Model::default()),
